@@ -121,7 +121,7 @@ def rand_type(rng, d, generics, leaves=LEAF_PRIMS, users=USER, generic_keys=0.04
 # Rust source spelling of an IR type, decorated with what must vanish (references, smart pointers,
 # path qualification, lifetimes): source-level inputs whose denotation is the given IR type
 # ------------------------------------------------------------------------------------------------
-WRAPPERS = ['Box', 'Arc', 'Rc', 'Cell', 'RefCell', 'Mutex', 'RwLock', 'std::sync::Arc', 'std::rc::Rc', 'std::boxed::Box', 'std::sync::Mutex']
+WRAPPERS = ['Box', 'Arc', 'Rc', 'Cell', 'RefCell', 'Mutex', 'RwLock', 'Weak', 'std::sync::Weak', 'std::sync::Arc', 'std::rc::Rc', 'std::boxed::Box', 'std::sync::Mutex']
 QUALS = {'Vec': ['std::vec::Vec', 'Vec'], 'Option': ['std::option::Option', 'core::option::Option', 'Option'],
          'HashMap': ['std::collections::HashMap', 'collections::HashMap', 'HashMap'], 'String': ['std::string::String', 'String']}
 
